@@ -65,12 +65,16 @@ func loadImports(sys fs.FS, topPkg string, top *token) (pkgList, error) {
 	var res []*token
 	for len(packages) > 0 {
 		var pkg string
+		ready := false
 		for _, k := range keys {
 			if len(deps[k]) > 0 {
 				continue
 			}
-			pkg = k
+			pkg, ready = k, true
 			break
+		}
+		if !ready {
+			return nil, fmt.Errorf("import cycle among: %v", strings.Join(keys, ", "))
 		}
 		delete(deps, pkg)
 		for _, d := range deps {
